@@ -76,6 +76,7 @@ def correspond(ctx):
   for p in res['problems'][:5]:
     ctx.broken('instrumentation:K1', json.dumps(p, default=repr)[:800])
   hard = K.B_ACCEPT | K.B_UNDO_INC | K.B_UNDO | K.B_STATE
+  broken_kinds = set()
   n_sc = 0
   for meta, code in zip(res['metas'], res['codes']):
     ctx.count(('trace', json.dumps(meta['bundle'], default=repr)), nontrivial=meta['n_events'] > 0,
@@ -83,6 +84,7 @@ def correspond(ctx):
     for k in meta['kinds']:
       ctx.bump('event:' + k)
     if code & hard:
+      broken_kinds.update(meta['kinds'])
       bits = [n for b, n in ((1, 'model rejects an event'), (2, 'undo actions appended differ'), (8, 'final undo list differs'),
                              (16, 'final tables differ')) if code & b]
       ctx.broken('correspondence:K1 model vs engine trace (%s)' % ', '.join(bits),
@@ -109,6 +111,10 @@ def correspond(ctx):
         ctx.broken('correspondence:model undo replay fails on data cells where the engine undo succeeds',
                    json.dumps({'history': meta['history'], 'bundle': meta['bundle']}, default=repr)[:1500])
       ctx.bump('model-undo-replay-differs' + ('' if code & K.B_MUNDO_DATA else ':formula-cells-only(recalculated by the engine)'))
+  if broken_kinds:
+    # the tie broke: look for a concrete failing input around the kinds of doc actions of the disagreeing bundles
+    for kind, what, rep in K.focused_search(broken_kinds, PROP):
+      ctx.violation(kind, what, rep)
   for s in res['samples'][:3]:
     ctx.samples.append(s)
   if n_sc:
